@@ -50,12 +50,12 @@ def depth_of(b, kind, tol):
     return b.get("depth_for", {}).get((kind, tol), b["depth"])
 
 
-def impl_cfg(kind, tol, b, *, ref=False, merge=False, inplace=False, collide=False, invariants=True):
+def impl_cfg(kind, tol, b, *, ref=False, merge=False, inplace=False, collide=False, invariants=True, anymatch=False):
     s = (f'CONSTANTS Kind = "{kind}"\n Tol = {tol}\n Scale = {SCALE}\n XV <- {b["lattice"]}\n NZ = {b["nz"]}\n'
          f' Cells = {tla_set(sorted(CELLS0))}\n ZArgs = {tla_set(b["zargs"])}\n MaxDepth = {depth_of(b, kind, tol)}\n'
          f' RefIn = {to_tla(ref)}\n RefOut = {to_tla(ref)}\n SimpleMerge = {to_tla(merge)}\n'
          f' Inplace = {to_tla(inplace)}\n Collide = {to_tla(collide)}\n LinModes = {tla_set(b["linmodes"])}\n'
-         f' ExecFlags = {tla_set(b["execflags"])}\n LitXs = {tla_set(b["litxs"])}\n'
+         f' ExecFlags = {tla_set(b["execflags"])}\n LitXs = {tla_set(b["litxs"])}\n LinZArgs = {tla_set(b["linzargs"])}\n AnyMatch = {to_tla(anymatch)}\n'
          "INIT Init\nNEXT Next\nCONSTRAINT Bound\nCHECK_DEADLOCK FALSE\n")
     if invariants:
         s += "".join(f"INVARIANT {i}\n" for i in IMPL_INVS)
@@ -112,7 +112,7 @@ def entries_differ(real, model):
     return []
 
 
-CALLS = ("Execute", "ExecuteLit", "Linearize")
+CALLS = ("Execute", "ExecuteLit", "Linearize", "LinearizeLit")
 
 _COV = re.compile(r"^<(\w+) line \d+, col \d+ to line \d+, col \d+ of module \w+(?: \([\d ]+\))?>: (\d+):(\d+)", re.M)
 
@@ -137,6 +137,9 @@ def label(action, args):
 
 # ------------------------------------------------------------------ replay of a tour (worker processes)
 
+_GRAPHS = {}
+
+
 def replay_job(job):
     """Executed in a worker process: steps real gemseo objects through a chunk of tour paths.
     -> {"traces": [...], "covered": [edge indices conforming], "exceptions": [...], "steps": n}"""
@@ -152,11 +155,54 @@ def replay_job(job):
     b = job["bounds"]
     kind, tol, inplace = job["kind"], job["tol"], job["inplace"]
     world = World(LATTICES[b["lattice"]], SCALE, b["nz"])
-    graph = Graph(Path(job["dot"]))
+    graph = _GRAPHS[job["config"]]  # parsed by the parent before the fork
     work = Path(job["work"])
     full_entries = kind in ("simple", "memLocal") or job["entries_every_step"]
-    out = {"traces": [], "covered": set(), "exceptions": [], "problems": [], "steps": 0}
+    out = {"traces": [], "covered": set(), "exceptions": [], "problems": [], "steps": 0, "paths": 0,
+           "differing": 0, "sample": None}
     drv = None
+    undo = inject_collisions(world, job["hash_table"]) if job.get("hash_table") else None
+    try:
+        _replay_paths(job, graph, world, work, kind, tol, inplace, full_entries, out)
+    finally:
+        if undo:
+            undo()
+    out["covered"] = sorted(out["covered"])
+    return out
+
+
+def inject_collisions(world, table):
+    """Collision injection: xxh3_64 cannot be made to collide, so the branches of BaseFullCache that handle
+    several entries under one hash are exercised with a test double of the hash library: the name
+    ``hash_data`` used by the full caches is bound, in this worker process only, to the hash table H that
+    the specification printed (same collisions in the model and in the implementation)."""
+    import gemseo.caches._hdf5_file_singleton as m2
+    import gemseo.caches.base_full_cache as m1
+
+    real = m1.hash_data
+    codes = {}
+
+    def fake(data):
+        p = world.point_of_inputs(data)
+        if p not in table:
+            return real(data)
+        return codes.setdefault(table[p], len(codes) + 1)
+
+    saved = (m1.hash_data, m2.hash_data)
+    m1.hash_data = m2.hash_data = fake
+
+    def undo():
+        m1.hash_data, m2.hash_data = saved
+
+    return undo
+
+
+def _replay_paths(job, graph, world, work, kind, tol, inplace, full_entries, out):
+    from .c05_disc import Driver
+    import traceback
+
+    drv = None
+    keep = set(random.Random(job["seed"]).sample(range(len(job["paths"])), min(job["keep_conforming"], len(job["paths"]))))
     for n, path in enumerate(job["paths"]):
         tid = job["first_id"] + n
         drv = Driver(world, kind, tol / SCALE, inplace, work, f"{job['tag']}", CELLS0, reuse=drv)
@@ -190,44 +236,60 @@ def replay_job(job):
                     drift = {"step": len(events), "label": labels[-1], "diffs": diffs}
                 else:
                     out["covered"].add(k)
-        out["traces"].append({"id": tid, "kind": kind, "tol": tol, "inplace": inplace, "labels": labels,
-                              "events": events, "drift": drift})
+        out["paths"] += 1
+        out["differing"] += 1 if drift else 0
+        trace = {"id": tid, "kind": kind, "tol": tol, "inplace": inplace, "labels": labels, "events": events,
+                 "drift": drift}
+        if drift or n in keep:  # every differing trace, a seeded sample of the conforming ones
+            out["traces"].append(trace)
+        if out["sample"] is None and len(events) >= 3:
+            out["sample"] = trace
     if drv is not None:
         drv.close()
-    out["covered"] = sorted(out["covered"])
-    return out
 
 
 def follow_variant(graph, index, trace):
-    """Does the variant graph reproduce every return of the observed trace (same labels)?"""
-    cur = graph.init[0]
+    """Does the variant graph (a relation: several successors per label) contain a path with the labels of
+    the observed trace that reproduces every observed return?"""
+    cur = {graph.init[0]}
     for lab, ev in zip(trace["labels"], trace["events"]):
-        nxt = index.get((cur, lab))
-        if nxt is None:
+        nxt = set()
+        for s in cur:
+            for d in index.get((s, lab), ()):
+                if ev["op"] not in ("exec", "lin") or not ret_differs(ev, graph.states[d]["ret"]):
+                    nxt.add(d)
+        if not nxt:
             return False
         cur = nxt
-        if ev["op"] in ("exec", "lin") and ret_differs(ev, graph.states[cur]["ret"]):
-            return False
     return True
 
 
+def slim(graph, fields):
+    """Keep only the state variables the replay compares (the graphs of the thorough tier are large)."""
+    for sid, st in graph.states.items():
+        graph.states[sid] = {k: st[k] for k in fields}
+    return graph
+
+
 def edge_index(graph):
-    return {(s, label(a, args)): d for s, d, a, args in graph.edges}
+    idx = {}
+    for s, d, a, args in graph.edges:
+        idx.setdefault((s, label(a, args)), []).append(d)
+    return idx
 
 
 # ------------------------------------------------------------------ main
 
 def bounds(ck):
+    # TLCGet("level") <= depth: histories of depth-1 steps
     if ck.thorough:
-        return {"lattice": "Lattice5", "nz": 2, "zargs": ["omit", "dflt", "alt"], "depth": 5,
-                "linmodes": ["all", "sub"], "execflags": [True, False], "litxs": [1, 3]}
-    # TLCGet("level") <= depth: histories of depth-1 calls; one more for SimpleCache with a tolerance (cheap
-    # to execute), where the shortest refutation of the tolerance-merge rule has 4 steps
-    return {"lattice": "Lattice4", "nz": 1, "zargs": ["omit", "dflt"], "depth": 4, "depth_for": {("simple", TOLN): 5},
-            "linmodes": ["all", "sub"], "execflags": [True, False], "litxs": [1]}
+        return {"lattice": "Lattice5", "nz": 2, "zargs": ["omit", "dflt", "alt"], "linzargs": ["omit"],
+                "depth": 5, "linmodes": ["all", "sub"], "execflags": [True, False], "litxs": [1, 3]}
+    return {"lattice": "Lattice4", "nz": 1, "zargs": ["omit", "dflt"], "linzargs": ["omit", "dflt"], "depth": 4,
+            "linmodes": ["all", "sub"], "execflags": [True, False], "litxs": [1, 3]}
 
 
-REQUIRED = ("Execute", "ExecuteLit", "Linearize", "MutateCell", "SetDiff")
+REQUIRED = ("Execute", "ExecuteLit", "Linearize", "LinearizeLit", "MutateCell", "SetDiff")
 
 
 class TLCJobs:
@@ -281,77 +343,125 @@ def chunks(xs, n):
 
 def run(ck: Check):
     import multiprocessing as mp
+    import time
     from concurrent.futures import ProcessPoolExecutor
 
     rng = random.Random(ck.seed)
     b = bounds(ck)
-    configs = [(k, t) for k in KINDS for t in ((0,) if k == "none" else (0, TOLN))]
+    # (kind, tolerance numerator, hash collisions injected)
+    configs = [(k, t, False) for k in KINDS for t in ((0,) if k == "none" else (0, TOLN))]
+    if ck.thorough:
+        # (not the local-memory cache: its known defect D4 is classified with collision-free variant graphs)
+        configs += [(k, t, True) for k in ("memShared", "hdf5") for t in (0, TOLN)]
+    else:
+        configs += [("memShared", 0, True), ("hdf5", TOLN, True)]
     variant_defs = [("memLocal", 0, "byRef", {"ref": True}, (False, True)),
                     ("memLocal", TOLN, "byRef", {"ref": True}, (False, True)),
                     ("simple", TOLN, "simpleMerge", {"merge": True}, (False,))]
+
+    def name(c):
+        return f"{c[0]}-{c[1]}" + ("-collide" if c[2] else "")
 
     # ---- 1. TLC.  (a) the clauses alone: satisfiable, not vacuous (the most liberal system);
     #   (b) the implementation-shaped model satisfies every clause, exhaustively within the bounds, and
     #       the same run dumps its labelled state graph; (c) the rules of the code that are switches of
     #       the model: refuted by TLC, and their graph (no invariants) for classification
     jobs = TLCJobs(ck)
+    needs = {}
     for kind, tol in (("memShared", TOLN), ("hdf5", 0), ("simple", 0), ("none", 0)):
         jobs.add(f"abs-{kind}-{tol}", "DiscCache", abstract_cfg(kind, tol, 5 if ck.thorough else 4), timeout=900,
                  need=("AExecute", "ALinearize", "AMutate"))
-    for kind, tol in configs:
+    for c in configs:
+        kind, tol, collide = c
         need = REQUIRED + (("ClearCache",) if kind != "none" else ()) + (("Reopen",) if kind == "hdf5" else ()) \
             + (("SetCache",) if kind in ("simple", "memShared", "memLocal") else ())
-        jobs.add(f"impl-{kind}-{tol}", "DiscCacheImpl", impl_cfg(kind, tol, b), need=need, timeout=1500, dump=True)
-    for kind, tol, name, kw, flavours in variant_defs:
+        # (vacuity is checked below on the edge labels of the dumped graph: -coverage slows large runs down)
+        needs[c] = need
+        jobs.add(f"impl-{name(c)}", "DiscCacheImpl", impl_cfg(kind, tol, b, collide=collide), coverage=False,
+                 timeout=1700, dump=True)
+    for kind, tol, vname, kw, flavours in variant_defs:
         for inplace in flavours:
-            jobs.add(f"refute-{name}-{tol}-{inplace}", "DiscCacheImpl", impl_cfg(kind, tol, b, inplace=inplace, **kw),
+            jobs.add(f"refute-{vname}-{tol}-{inplace}", "DiscCacheImpl", impl_cfg(kind, tol, b, inplace=inplace, **kw),
                      expect_ok=False, count=False, coverage=False, timeout=900)
-            jobs.add(f"graph-{name}-{tol}-{inplace}", "DiscCacheImpl",
-                     impl_cfg(kind, tol, b, inplace=inplace, invariants=False, **kw),
-                     count=False, coverage=False, timeout=900, dump=True)
-    import time
+            jobs.add(f"graph-{vname}-{tol}-{inplace}", "DiscCacheImpl",
+                     impl_cfg(kind, tol, b, inplace=inplace, invariants=False, anymatch=True, **kw),
+                     count=False, coverage=False, timeout=1700, dump=True)
     t0 = time.time()
     res = jobs.run()
     ck.extra["timing"] = {"tlc_models_s": round(time.time() - t0, 1)}
     variants = {}
-    for kind, tol, name, kw, flavours in variant_defs:
+    for kind, tol, vname, kw, flavours in variant_defs:
         for inplace in flavours:
-            r = res[f"refute-{name}-{tol}-{inplace}"]
+            r = res[f"refute-{vname}-{tol}-{inplace}"]
             if not r.violated:
-                raise MachineryError(f"variant {name} ({kind}, tol {tol}) is not refuted by TLC: the switch is vacuous")
+                raise MachineryError(f"variant {vname} ({kind}, tol {tol}) is not refuted by TLC: the switch is vacuous")
             ck.extra.setdefault("refuted_variants", []).append(
-                {"variant": name, "kind": kind, "tol": tol, "inplace": inplace, "violates": r.violated,
-                 "counterexample": [a for a, _ in r.counterexample()][1:]})
-            vg = Graph(ck.work / f"tlc-graph-{name}-{tol}-{inplace}" / "DiscCacheImpl.dot")
-            variants[(kind, tol, inplace)] = (name, vg, edge_index(vg))
+                {"variant": vname, "kind": kind, "tol": tol, "inplace": inplace, "violates": r.violated,
+                 "counterexample": [a.split(" line")[0] for a, _ in r.counterexample()][1:]})
+            vg = slim(Graph(ck.work / f"tlc-graph-{vname}-{tol}-{inplace}" / "DiscCacheImpl.dot"), ("ret",))
+            variants[(kind, tol, inplace)] = (vname, vg, edge_index(vg))
             if len(flavours) == 1:  # the variant does not depend on the discipline flavour
                 variants[(kind, tol, not inplace)] = variants[(kind, tol, inplace)]
 
-    # ---- 2. spec -> code: transition tours executed on the real objects (worker processes)
+    # ---- 2. spec -> code: transition tours executed on the real objects (worker processes).  The workers
+    #         return every trace that differs from DiscCacheImpl somewhere and a seeded sample of the others.
+    t0 = time.time()
+    n_sample = 10000 if ck.thorough else 1500   # conforming traces kept per (configuration, flavour)
     graphs, rjobs, first_id = {}, [], 1
-    for kind, tol in configs:
-        dot = ck.work / f"tlc-impl-{kind}-{tol}" / "DiscCacheImpl.dot"
-        g = Graph(dot)
-        paths = g.tour(max_len=depth_of(b, kind, tol) + 1)
-        graphs[(kind, tol)] = (g, paths)
-        for inplace, budget in plan(ck, kind, tol):
+    for c in configs:
+        kind, tol, collide = c
+        g = slim(Graph(ck.work / f"tlc-impl-{name(c)}" / "DiscCacheImpl.dot"), ("ret", "entries"))
+        taken = {a for _, _, a, _ in g.edges}
+        for a in needs[c]:
+            if a not in taken:
+                raise MachineryError(f"vacuity: action {a} of DiscCacheImpl [{name(c)}] never taken")
+        # histories of at most depth-1 steps: all their states lie within the level bound of every graph
+        # dumped with the same bound (the variant graphs used for classification included)
+        steps = depth_of(b, kind, tol) - 1
+        paths = [p for p in g.tour(max_len=steps) if len(p) <= steps]
+        graphs[c] = (g, paths)
+        _GRAPHS[c] = g
+        table = None
+        if collide:
+            tabs = [v[1] for v in res[f"impl-{name(c)}"].printed() if isinstance(v, tuple) and v and v[0] == "HASH"]
+            if not tabs:
+                raise MachineryError("the specification did not print its hash table")
+            table = {tuple(p): tuple(h) for p, h in tabs[0].items()}
+            if len(set(table.values())) == len(table):
+                raise MachineryError("collision injection requested but the hash table has no collision")
+        for inplace, budget in plan(ck, kind, tol, collide):
             sel = paths
             if budget is not None and len(paths) > budget:
                 sel = [paths[i] for i in sorted(rng.sample(range(len(paths)), budget))]
-            for ch in chunks(sel, 250):
-                rjobs.append({"kind": kind, "tol": tol, "inplace": inplace, "dot": str(dot), "paths": ch,
-                              "bounds": b, "work": str(ck.work), "tag": f"{kind}-{tol}-{len(rjobs)}",
-                              "first_id": first_id, "entries_every_step": ck.thorough})
+            chs = chunks(sel, 250 if not ck.thorough else 2000)
+            for ch in chs:
+                rjobs.append({"config": c, "kind": kind, "tol": tol, "inplace": inplace, "paths": ch,
+                              "bounds": b, "work": str(ck.work), "tag": f"{name(c)}-{len(rjobs)}",
+                              "first_id": first_id, "entries_every_step": ck.thorough, "hash_table": table,
+                              "seed": ck.seed * 100003 + len(rjobs), "keep_conforming": n_sample // len(chs) + 1})
                 first_id += len(ch)
+    ck.extra["timing"]["graphs_tours_s"] = round(time.time() - t0, 1)
     t0 = time.time()
+    # longest jobs first (HDF5 files, manager-backed dictionaries)
+    order = sorted(range(len(rjobs)), key=lambda i: {"hdf5": 0, "memShared": 1}.get(rjobs[i]["kind"], 2))
     with ProcessPoolExecutor(8, mp_context=mp.get_context("fork")) as ex:
-        routs = list(ex.map(replay_job, rjobs))
+        outs = list(ex.map(replay_job, [rjobs[i] for i in order]))
+    routs = [None] * len(rjobs)
+    for i, o in zip(order, outs):
+        routs[i] = o
     ck.extra["timing"]["replay_s"] = round(time.time() - t0, 1)
     all_traces = {c: [] for c in configs}
     covered = {c: set() for c in configs}
+    n_paths = {c: 0 for c in configs}
+    n_differing = {c: 0 for c in configs}
+    samples = {}
     n_steps = 0
     for job, out in zip(rjobs, routs):
-        c = (job["kind"], job["tol"])
+        c = job["config"]
+        n_paths[c] += out["paths"]
+        n_differing[c] += out["differing"]
+        if out["sample"] and c not in samples:
+            samples[c] = out["sample"]
         sig = {"kind": job["kind"], "tolerance": "t" if job["tol"] else "0",
                "discipline": "inplace" if job["inplace"] else "fresh"}
         all_traces[c] += out["traces"]
@@ -365,58 +475,70 @@ def run(ck: Check):
     for c in configs:
         g, paths = graphs[c]
         tr = all_traces[c]
-        stats[f"{c[0]}/{'t' if c[1] else '0'}"] = {
-            "states": len(g.states), "edges": len(g.edges), "tour_paths": len(paths), "paths_run": len(tr),
-            "edges_conforming": len(covered[c]), "paths_differing": sum(1 for t in tr if t["drift"])}
-        if tr:
-            ck.sample({"kind": c[0], "tol": c[1], "labels": tr[len(tr) // 2]["labels"], "events": tr[len(tr) // 2]["events"]},
-                      limit=9)
+        stats[name(c)] = {
+            "states": len(g.states), "edges": len(g.edges), "tour_paths": len(paths), "paths_run": n_paths[c],
+            "edges_conforming": len(covered[c]), "paths_differing": n_differing[c]}
+        if c in samples:
+            ck.sample({"config": name(c), "labels": samples[c]["labels"], "events": samples[c]["events"]}, limit=14)
 
-    # ---- 3. code -> spec: the clauses evaluated by TLC on every recorded trace
+    # ---- 3. code -> spec: the clauses evaluated by TLC on the recorded traces: every trace that differs from
+    #         DiscCacheImpl somewhere, and the sample of the conforming ones (a conforming trace returns
+    #         what the model returns, and TLC has shown that the model satisfies the clauses)
+    validated = {}
+    tjobs = []
     for c in configs:
-        f = ck.work / f"c05-traces-{c[0]}-{c[1]}.json"
-        f.write_text(json.dumps([{"id": t["id"], "events": t["events"]} for t in all_traces[c]] or
-                                [{"id": 0, "events": []}]))
-        jobs.add(f"trace-{c[0]}-{c[1]}", "DiscCacheTrace", trace_cfg(c[0], c[1], b), timeout=1500, coverage=False,
-                 env={"TRACE_FILE": str(f)})
+        validated[c] = all_traces[c]
+        for k, ch in enumerate(chunks(validated[c], 20000) or [[]]):
+            f = ck.work / f"c05-traces-{name(c)}-{k}.json"
+            f.write_text(json.dumps([{"id": t["id"], "events": t["events"]} for t in ch] or [{"id": 0, "events": []}]))
+            jobs.add(f"trace-{name(c)}-{k}", "DiscCacheTrace", trace_cfg(c[0], c[1], b), timeout=1700, coverage=False,
+                     env={"TRACE_FILE": str(f)})
+            tjobs.append((c, f"trace-{name(c)}-{k}"))
     t0 = time.time()
     res = jobs.run()
     ck.extra["timing"]["tlc_traces_s"] = round(time.time() - t0, 1)
     n_viol = 0
-    for (kind, tol) in configs:
-        r = res[f"trace-{kind}-{tol}"]
+    for c in configs:
+        kind, tol, collide = c
         reached, bad = {}, {}
-        for v in r.printed():
-            if isinstance(v, tuple) and v and v[0] == "TRACE":
-                reached[v[1]] = (v[2], v[3])
-            elif isinstance(v, tuple) and v and v[0] == "BAD":
-                bad.setdefault(v[1], []).append((v[2], str(v[3])))
-        for t in all_traces[(kind, tol)]:
+        for cc, key in tjobs:
+            if cc != c:
+                continue
+            for v in res[key].printed():
+                if isinstance(v, tuple) and v and v[0] == "TRACE":
+                    reached[v[1]] = (v[2], v[3])
+                elif isinstance(v, tuple) and v and v[0] == "BAD":
+                    bad.setdefault(v[1], []).append((v[2], str(v[3])))
+        for t in validated[c]:
             if t["id"] not in reached:
                 raise MachineryError(f"no verdict for trace {t['id']}")
             got, total = reached[t["id"]]
             if got != total:
                 raise MachineryError(f"trace {t['id']} not consumed ({got}/{total}): recorder inconsistent: {t['labels']}")
-            ck.traces += 1
             if t["id"] not in bad:
                 continue
+            if not t["drift"]:
+                raise MachineryError(f"trace {t['id']} conforms to DiscCacheImpl and violates a clause: {t['labels']}")
             n_viol += 1
             step = min(s for s, _ in bad[t["id"]])
             clauses = sorted({cl for s, cl in bad[t["id"]] if s == step})
             var = variants.get((kind, tol, t["inplace"]))
-            explained = var[0] if var and follow_variant(var[1], var[2], t) else "none"
+            explained = var[0] if var and not collide and follow_variant(var[1], var[2], t) else "none"
             for clause in clauses:
                 ck.violation(clause, {"kind": kind, "tolerance": "t" if tol else "0",
                                       "discipline": "inplace" if t["inplace"] else "fresh",
                                       "explained_by": explained},
                              {"labels": t["labels"][:step], "events": t["events"][:step],
-                              "first_difference_with_DiscCacheImpl": t["drift"],
+                              "first_difference_with_DiscCacheImpl": t["drift"], "collisions_injected": collide,
                               "lattice": list(LATTICES[b["lattice"]]), "scale": SCALE,
                               "tolerance": tol / SCALE})
+    ck.traces = sum(n_paths.values())
     ck.extra["replay"] = stats
-    ck.extra["paths_replayed"] = sum(len(v) for v in all_traces.values())
+    ck.extra["paths_replayed"] = ck.traces
     ck.extra["steps_replayed"] = n_steps
+    ck.extra["paths_replayed_with_collision_injection"] = sum(n_paths[c] for c in configs if c[2])
     ck.extra["paths_differing_from_DiscCacheImpl"] = sum(s["paths_differing"] for s in stats.values())
+    ck.extra["traces_validated_by_DiscCacheTrace"] = sum(len(v) for v in validated.values())
     ck.extra["traces_with_refuted_clause"] = n_viol
     ck.exhaustive = all(s["edges_conforming"] == s["edges"] for s in stats.values())
     ck.assumptions += [
@@ -425,20 +547,26 @@ def run(ck: Check):
         "linearize(execute=False) is only offered right after a call at the same input (its documented precondition)",
         "outputs/Jacobians are identified with lattice points through an uncached twin (value table of G and J)",
         "between two tour paths the cache object is emptied with clear() and reused (building a full cache costs 15-35 ms)",
+        "collision injection: hash_data as imported by base_full_cache/_hdf5_file_singleton is replaced in the worker process by the specification's colliding hash table",
     ]
 
 
-def plan(ck, kind, tol):
+def plan(ck, kind, tol, collide=False):
     """Discipline flavours (inplace?) and number of tour paths executed per configuration (None = the whole
-    tour).  Quick tier: the whole tour on the cheap caches, a seeded sample on the caches that go through a
-    manager process or an HDF5 file; the buffer-reusing discipline only where a group could be kept by
+    tour).  The whole tour on the cheap caches, a seeded sample on the caches that go through a manager
+    process or an HDF5 file; quick tier: the buffer-reusing discipline only where a group could be kept by
     reference (SimpleCache, local-memory cache)."""
     if kind == "none":
         return [(False, None)]
     if ck.thorough:
-        return [(False, None), (True, None)]
+        n = {"simple": None, "memLocal": None, "memShared": 15000, "hdf5": 8000}[kind]
+        if collide:
+            n = {"memShared": 8000, "hdf5": 4000}[kind]
+        return [(False, n), (True, n)]
+    if collide:
+        return [(False, None if kind == "memShared" else 300)]
     if kind == "simple":
-        return [(False, None), (True, None if tol == 0 else 1500)]
+        return [(False, None), (True, None)]
     if kind == "memLocal":
         return [(False, None), (True, None)]
     if kind == "memShared":
